@@ -20,13 +20,13 @@ PROP = {
     "units": [
         {"name": "c18", "pkg": "./internal/pkg/controler/watchers", "run": "^TestVerif_C18_(Exact|Monotone)$", "kind": "rapid",
          "facets": ["C18/exact", "C18/monotone"],
-         "checks": (400000, 10000000), "shards": (4, 16), "timeout": (600, 3000)},
+         "checks": (400000, 6000000), "shards": (4, 16), "timeout": (600, 3000)},
         {"name": "c18aux", "pkg": "./internal/pkg/controler/watchers", "run": "^TestVerif_C18_(Statfs|OracleSelfTest)$", "kind": "rapid",
          "facets": ["C18/statfs"],
          "checks": (5000, 50000), "shards": (1, 4), "timeout": (600, 3000)},
         {"name": "c18cfg", "pkg": "./internal/pkg/controler/watchers", "run": "^TestVerif_C18_Config$", "kind": "rapid",
          "facets": ["C18/config"],
-         "checks": (150, 1500), "shards": (2, 16), "timeout": (600, 3000)},
+         "checks": (150, 1000), "shards": (2, 16), "timeout": (600, 3000)},
         {"name": "c18kf-overflow", "pkg": "./internal/pkg/controler/watchers", "run": "^TestVerifKF_C18_MinSpaceOverflow$", "kind": "kf",
          "finding": "C18-minspace-overflows-uint64", "facets": [],
          "checks": (2000, 20000), "shards": (1, 1), "shrinktime": (5, 10), "timeout": (600, 600)},
